@@ -45,6 +45,7 @@ try:
             mcc = _re.search(r"\b(?:cc|gcc|clang)\b[^\n]*(?:\\\n[^\n]*)*", head)
             if mcc:
                 extra += " " + " ".join(sorted(set(f for f in _re.findall(r"(?<![\w/])-D[A-Za-z_]\w*(?:=[\w.]+)?", mcc.group(0)) if f != "-D_GNU_SOURCE")))
+                extra += " " + " ".join(sorted(set(_re.findall(r"(?<![\w/])-fsanitize=[\w,]+", mcc.group(0)))))
             for l in txt.splitlines()[:60]:
                 if "EXTRA_CFLAGS:" in l:
                     extra += " " + l.split("EXTRA_CFLAGS:")[1].strip().rstrip("*/").strip()
@@ -62,6 +63,7 @@ try:
         t0 = time.time()
         rc, out = sh(f"cd {VDIR} && VERIF_REPO={wt} python3 check.py {c} --tier quick")
         lines = [l for l in out.splitlines() if l.startswith(("VIOLATION", "KNOWN-FINDING", "CHECK-BROKEN", "  violation", "["))]
+        lines.sort(key=lambda l: not l.startswith(("VIOLATION", "KNOWN-FINDING", "CHECK-BROKEN")))  # verdict lines first (stable)
         res["checks"][c] = {"rc": rc, "wall_s": round(time.time() - t0, 1), "lines": lines[:12]}
     sh(f"git -C {wt} checkout -- .")
     rc, out = sh(f"cmake --build {wt}/_b 2>&1 | tail -2")
